@@ -278,6 +278,20 @@ def check_broadcast(ctx: Ctx, i: int, rng) -> None:
     subs, bshape, xshape = BROADCASTS[i % len(BROADCASTS)]
     blocks = np.array([rng.randint(1, 4) for _ in range(int(np.prod(bshape)))], dtype=np.float64).reshape(bshape)
     cfg = {'subscripts': subs, 'blocks_shape': bshape, 'leaf_shape': xshape}
+    # a legitimate twin first — same subscripts, same block shape, an input the blocks fit exactly — built and
+    # transposed in the same process: what is decided for one operator must not be reused for another
+    L_, R_, _ = subs.replace('->', ',').split(',')
+    lcore, rcore = L_.replace('...', ''), R_.replace('...', '')
+    if len(bshape) >= len(lcore):
+        sizes = dict(zip(lcore, bshape[:len(lcore)] if L_.endswith('...') or '...' not in L_ else bshape[-len(lcore):]))
+        ell = bshape[len(lcore):] if L_.endswith('...') else bshape[:len(bshape) - len(lcore)] if '...' in L_ else ()
+        if all(c in sizes for c in rcore):
+            fit = tuple(sizes[c] for c in rcore)
+            fit = fit + tuple(ell) if R_.endswith('...') else tuple(ell) + fit if '...' in R_ else fit
+            stw, twin = safe(lambda: Dense(jnp.asarray(blocks, dtype=jnp.float32), jax.ShapeDtypeStruct(fit, jnp.float32), subs))
+            if stw == 'ok':
+                sttw, _ = safe(lambda: gen.dense(twin.T))
+                ctx.count('broadcast:twin-' + ('transposed' if sttw == 'ok' else 'refused'))
     st, op = safe(lambda: Dense(jnp.asarray(blocks, dtype=jnp.float32), jax.ShapeDtypeStruct(xshape, jnp.float32), subs))
     if st != 'ok':
         ctx.count('broadcast:ctor-refused')
